@@ -2,6 +2,7 @@
 """C20 - no download is reported successful with a file failing its published checksum."""
 
 import contextlib
+import functools
 import hashlib
 import io
 import itertools
@@ -25,7 +26,7 @@ RULE = (
     "c=corrupted body, e=empty 200 body, 4=HTTP 404} x checksum behaviour, both constant {o=correct, w=wrong, "
     "m=unavailable; the checksum file is '<md5>  name', bare, 'md5sum -b' style or naming another path, the wrong checksum is all zeros, another digest, one character short or too long) and scripted sequences of length <=3 over the same alphabet x prior target "
     "file {absent, valid, corrupt}. Requests beyond a script's end answer HTTP 500 (data) / 404 "
-    "(checksum). HEAD is unregistered (size probe fails as offline). Oracle: a reference model of "
+    "(checksum). HEAD on the data URL answers with the status and Content-Length of what the next GET would serve (without consuming the script). (big-bodies) bodies of 1 MiB + 577 bytes (thorough: up to 4 MiB + 1). Oracle: a reference model of "
     "the statement (pre-check, download, verify, exactly one retry on mismatch, raise on "
     "persistent mismatch or HTTP error) predicts outcome class, number of data and checksum "
     "requests and final file; independently: a normal return whose last verification had a "
@@ -41,7 +42,11 @@ def wrong_checksum(md5_good, fmt):
     return ['0' * 32, 'f' * 32, md5_good[:-1], md5_good + '00000000'][(fmt // 4) % 2 * 2 + fmt % 2]
 
 
+@functools.lru_cache(maxsize=4)
 def _body(size):
+    if size > 100000:
+        import numpy as np
+        return ((np.arange(size, dtype=np.int64) * 131 + 17) % 256).astype(np.uint8).tobytes()
     return bytes((i * 131 + 17) % 256 for i in range(size))
 
 
@@ -67,9 +72,23 @@ def _cases(th):
                            'ctype': k % 2, 'fmt': (k // 2) % 8}
 
 
+def _big_cases(th):
+    # bodies of more than 1 MiB that are not a whole number of MiB (hashing / streaming in blocks)
+    k = 0
+    for size in [2 ** 20 + 577] + ([2 ** 21 + 2 ** 19 + 3, 2 ** 20, 2 ** 22 + 1] if th else []):
+        for ds in ('g', 'cg', 'cc', 'c4'):
+            for prior in ('absent', 'valid', 'corrupt'):
+                k += 1
+                yield {'data': ds, 'ck': 'o', 'ckind': 'const', 'prior': prior, 'size': size,
+                       'ctype': k % 2, 'fmt': k % 8}
+
+
 def drivers(tier):
     th = tier == 'thorough'
-    return [dict(kind='enum', name='faults', exhaustive=True,
+    return [dict(kind='enum', name='big-bodies', exhaustive=False,
+                 bound='bodies of 1 MiB + 577 bytes (thorough: up to 4 MiB + 1)',
+                 cases=lambda: _big_cases(th)),
+            dict(kind='enum', name='faults', exhaustive=True,
                  bound='data scripts <=%d, checksum const+scripts<=3, 3 prior states' %
                        (4 if th else 3),
                  cases=lambda: _cases(th))]
@@ -155,6 +174,14 @@ def check(case):
         seen['exhausted'] = True
         return (500, {}, b'script exhausted')
 
+    def head_cb(req):
+        # a server answers HEAD with the status and length of what GET would serve now
+        d = data[0] if data else 'X'
+        body = {'g': good, 'c': corrupt, 't': trunc, 'e': b'', '4': b'not found'}.get(
+            d, b'script exhausted')
+        seen['head'] = seen.get('head', 0) + 1
+        return ({'4': 404, 'X': 500}.get(d, 200), {'Content-Length': str(len(body))}, b'')
+
     def md5_cb(req):
         seen['md5'] += 1
         if case['ckind'] == 'const':
@@ -184,6 +211,7 @@ def check(case):
         with responses.RequestsMock(assert_all_requests_are_fired=False) as rm:
             rm.add_callback(responses.GET, URL, callback=data_cb)
             rm.add_callback(responses.GET, URL + '.md5', callback=md5_cb)
+            rm.add_callback(responses.HEAD, URL, callback=head_cb)
             try:
                 _event.reset()  # progress callbacks registered by earlier cases
                 with contextlib.redirect_stdout(io.StringIO()):
@@ -238,4 +266,6 @@ def classify(case, info):
         nt = True
     if info['data'] == 2:
         labels.append('retried')
+    if case['size'] > 2 ** 20:
+        labels.append('body>1MiB')
     return labels, nt
